@@ -43,7 +43,7 @@ type gen struct {
 
 var trueSrc = []string{"true", "{()}", "1 = 1", "!false", "{1} = {1}", "true"}
 var falseSrc = []string{"false", "{}", "1 = 2", `""`, "!true", "false"}
-var otherSrc = []string{"1", `"str"`, "{1, 2}", "{|a| (1)}", "(a: 1).a", "0", `<<"b">>`, "{(a: 1)}"}
+var otherSrc = []string{"1", `"str"`, "{1, 2}", "{|a| (1)}", "(a: 1).a", "0", `<<"b">>`, "{(a: 1)}", `'true'`, `//str.lower("TRUE")`, `"{()}"`, `'false'`}
 
 // node returns source and appends the leaves below it (paths relative to prefix).
 func (g *gen) node(prefix string, depth int, passOnly bool, out *[]leaf) string {
@@ -133,10 +133,18 @@ func (g *gen) node(prefix string, depth int, passOnly bool, out *[]leaf) string 
 			seen[key] = true
 			parts = append(parts, key+": "+g.node(fmt.Sprintf("%s(%s)", prefix, label), depth+1, passOnly, out))
 		}
+		src := "{" + strings.Join(parts, ", ") + "}"
 		if g.routes && len(parts) == 2 && t.Bool(1, 3) {
-			return "({" + parts[0] + "} +> {" + parts[1] + "})"
+			src = "({" + parts[0] + "} +> {" + parts[1] + "})"
 		}
-		return "{" + strings.Join(parts, ", ") + "}"
+		if g.routes && !passOnly && t.Bool(1, 5) {
+			// a second, different value under a key: both are leaves at that path. Only true/false pairs are
+			// generated, so that the two values cannot coincide.
+			key, label := `"dup"`, "'dup'"
+			*out = append(*out, leaf{fmt.Sprintf("%s(%s)", prefix, label), "PASS"}, leaf{fmt.Sprintf("%s(%s)", prefix, label), "FAIL"})
+			src = fmt.Sprintf("(%s | {%s: true} | {%s: false})", src, key, key)
+		}
+		return src
 	}
 }
 
